@@ -278,6 +278,7 @@ func c13Main(r *run.Runner) {
 		}
 		mustCompile(w, src, "corpus")
 	})
+	scaleThorough = r.Thorough()
 	scale := scalePrograms()
 	r.Sweep("scale-compiles", int64(len(scale)), func(w *run.Worker, item int64) {
 		pr := gen.Print(scale[item])
